@@ -17,7 +17,7 @@ Proof.
   - vm_compute. repeat constructor.
 Qed.
 
-(* "(Red,Blue),(Green),(Blue,Red)": the repeated group is reported since the fix: commit 7597eca
+(* "(Red,Blue),(Green),(Blue,Red)": the repeated group is reported since fix commit 7597eca
    (before it this annotation was accepted: former finding C01-F2) *)
 Lemma ex_f2_reported : reports cfg830 (fprint ex_f2) ex_f2 (kind_code K_HED_TAG_REPEATED_GROUP).
 Proof. eexists; split; [vm_compute; reflexivity | vm_compute; tauto]. Qed.
@@ -107,3 +107,25 @@ Lemma ex_nested_repeats :
   reports cfg830 (fprint ex_nested_rep1) ex_nested_rep1 (kind_code K_HED_TAG_REPEATED)
   /\ reports cfg830 (fprint ex_nested_rep2) ex_nested_rep2 (kind_code K_HED_TAG_REPEATED_GROUP).
 Proof. split; (eexists; split; [vm_compute; reflexivity | vm_compute; tauto]). Qed.
+
+(* ---- empty groups: "Red,()", "(),()", "((),(Red)),((Red),())" *)
+From HV Require Import Proofs.ValidateEmpty.
+
+Lemma ex_empty_groups :
+  basic_clean cfg830 (fprint ex_empty1) ex_empty1 /\ In [] (sub_groups ex_empty1)
+  /\ reports cfg830 (fprint ex_empty1) ex_empty1 (kind_code K_HED_GROUP_EMPTY)
+  /\ reports cfg830 (fprint ex_empty2) ex_empty2 (kind_code K_HED_GROUP_EMPTY)
+  /\ reports cfg830 (fprint ex_empty2) ex_empty2 (kind_code K_HED_TAG_REPEATED_GROUP)
+  /\ reports cfg830 (fprint ex_empty3) ex_empty3 (kind_code K_HED_TAG_REPEATED_GROUP).
+Proof.
+  split; [eexists; split; vm_compute; reflexivity|].
+  split; [vm_compute; tauto|].
+  repeat split; (eexists; split; [vm_compute; reflexivity | vm_compute; tauto]).
+Qed.
+
+(* RECORD of the repaired defect: before fix commit 3e47c8c the duplicate check raised IndexError on a repeated group
+   that holds nothing but empty groups; the current model (= /repo HEAD) reports it *)
+Lemma ex_empty_dups_before_3e47c8c :
+  dup_n_before_3e47c8c (sorted_n (FGroup ex_empty2)) = Exn IndexError
+  /\ dup_n (sorted_n (FGroup ex_empty2)) = Ok [iss K_HED_TAG_REPEATED_GROUP].
+Proof. split; vm_compute; reflexivity. Qed.
